@@ -11,13 +11,20 @@ if core.REPO not in sys.path:
     sys.path.insert(0, core.REPO)
 
 
+_MODS = None
+
+
 def repo_modules():
+    global _MODS
+    if _MODS is not None:
+        return _MODS
     import importlib
     mods = {}
     for m in ['trees', 'transform', 'treeinput', 'treeoutput', 'treeanalysis', 'grammar',
               'grammaranalysis', 'grammarconst', 'grammarinput', 'grammaroutput',
               'transitions', 'transitionoutput', 'misc', 'transformconst']:
         mods[m] = importlib.import_module('trees.' + m)
+    _MODS = mods
     return mods
 
 
